@@ -308,9 +308,78 @@ def eci_search(binary, budget_s):
     return None
 
 
+def str_rt_search(binary, budget_s):
+    """DataMatrix::encode_str -> data codewords -> decode_str must give the string back (C14)"""
+    notable = [0x00, 0x1d, 0x20, 0x41, 0x7e, 0x7f, 0x80, 0x9f, 0xa0, 0xa4, 0xb5, 0xd7, 0xe9, 0xf7, 0xff, 0x100, 0x152, 0x3bc, 0x20ac, 0x2028,
+               0xd7ff, 0xe000, 0xfeff, 0xfffd, 0xffff, 0x10000, 0x1f600, 0x10ffff]
+    H5, H6, T = isoref.HEAD05.decode(), isoref.HEAD06.decode(), isoref.TRAIL.decode()
+    strs = []
+    for c in notable:
+        ch = chr(c)
+        for t in (ch, ch + 'A', 'A' + ch, 'ab' + ch + 'cd', ch + ch, ch + '12', H5 + ch + T, H6 + ch + 'x' + T):
+            strs.append(t)
+    for a in (0xe9, 0x20ac, 0xfeff):
+        for b in (0xb5, 0x152, 0xfeff):
+            strs.append(chr(a) + 'x' + chr(b))
+    strs += ['', 'Hello', 'A' * 50, '\u00e9' * 40, '\u20ac' * 20]
+    lines = ['encode_str default ' + hx(t.encode('utf-8')) for t in strs]
+    res = run_lines(binary, lines)
+    dl, dm = [], []
+    for l, t, r in zip(lines, strs, res):
+        if r.startswith('panic'):
+            return {'call': l, 'observed': r, 'expected': 'a value or an error (never a panic)'}
+        if r.startswith('ok'):
+            cw = r.split()[2] if len(r.split()) > 2 else ''
+            dl.append('decode_str ' + (cw or '-'))
+            dm.append((l, t))
+    res = run_lines(binary, dl)
+    for l2, (l, t), r in zip(dl, dm, res):
+        want = 'ok ' + t.encode('utf-8').hex()
+        if r.strip() != want.strip():
+            return {'call': l2, 'observed': r, 'expected': '%s  (the string given to `%s`, whose data codewords these are)' % (want, l[:200])}
+    return None
+
+
+def perf_search(binary, budget_s):
+    """planning work (C19): inputs of 240 characters made of alternating runs of the character classes must be encoded in well
+    under 10 s (the unchanged tree needs about 20 ms each); a call that does not finish in 10 s is the witness"""
+    classes = [b'abcxyz', b'ABCXYZ', b'012789', b' ', b'\xe1\xfa', b'_^', b'*>\r']
+    inputs = []
+    for k in (1, 2, 3, 6):
+        for i, a in enumerate(classes):
+            for j, b in enumerate(classes):
+                if i == j:
+                    continue
+                unit = bytes(a[n % len(a)] for n in range(k)) + bytes(b[n % len(b)] for n in range(k))
+                inputs.append((unit * (240 // len(unit) + 1))[:240])
+                for c in (classes[(j + 1) % 7], classes[(j + 3) % 7]):
+                    unit3 = unit + bytes(c[n % len(c)] for n in range(k))
+                    inputs.append((unit3 * (240 // len(unit3) + 1))[:240])
+    lines = ['rt default all 1 0 ' + hx(d) for d in inputs]
+    t0 = time.time()
+    for i in range(0, len(lines), 40):
+        if time.time() - t0 > budget_s:
+            return None
+        chunk = lines[i:i + 40]
+        try:
+            run_lines(binary, chunk, timeout=20)
+            continue
+        except subprocess.TimeoutExpired:
+            pass
+        for l in chunk:
+            try:
+                run_lines(binary, [l], timeout=10)
+            except subprocess.TimeoutExpired:
+                return {'call': l, 'observed': 'timeout: the call did not finish in 10 s', 'expected': 'a result within 10 s (planning is linear in the input length: about 20 ms for these 240 characters on the unchanged tree)'}
+    return None
+
+
 SEARCH = {
+    'V-PRUNE': [('perf', 60)],
+    'V-ADDSW': [('perf', 60)],
     'V-DEC': [('dec', 40)],
-    'V-ECI': [('eci', 30), ('dec_str', 30)],
+    'V-ECI': [('eci', 30), ('str_rt', 30), ('dec_str', 30)],
+    'V-STR': [('str_rt', 30)],
     'V-ENC': [('rt', 45)],
     'V-ASCII': [('rt', 45)],
     'V-X12': [('rt', 45)],
@@ -341,6 +410,10 @@ def find_witness(verif, unit):
                 w = rt_search(b, budget)
             elif kind == 'eci':
                 w = eci_search(b, budget)
+            elif kind == 'perf':
+                w = perf_search(b, budget)
+            elif kind == 'str_rt':
+                w = str_rt_search(b, budget)
             else:
                 w = None
         except Exception as e:   # a crashed search is not a verdict
@@ -401,7 +474,10 @@ def replay_file(verif, repo, path):
         if b is None:
             print('replay tool does not build against /repo')
             return 2
-        out = run_lines(b, [w['call']])
+        try:
+            out = run_lines(b, [w['call']], timeout=30)
+        except subprocess.TimeoutExpired:
+            out = ['timeout: the call did not finish in 30 s']
         print('call       :', w['call'])
         print('now        :', out[0])
         print('recorded   :', w['observed'])
